@@ -421,12 +421,11 @@ impl WalRecuperator {
 
         let schema = table.schema();
 
-        if let Some(row) =
-            Row::from_bytes_checked_with_snapshot(insert_op.redo(), schema, &snapshot)?
-        {
-            let columns = schema.column_indexes();
-            self.dml_executor.insert(table_id, &columns, &row)?;
-        }
+        // The logged image belongs to a committed transaction: redo it whatever the recovery
+        // transaction's own snapshot thinks of that (possibly newer) transaction id.
+        let row = Row::from_bytes_checked(insert_op.redo(), schema)?;
+        let columns = schema.column_indexes();
+        self.dml_executor.insert(table_id, &columns, &row)?;
         Ok(())
     }
 }
